@@ -16,7 +16,9 @@ RULE = ("S->C: TLC enumerates the value-class partition of JsonForms (every gene
         "text for an in-domain value - iff it is ok and equal to that value; Sequences of documents (TLC: every ordered pair of different classes of a type; driver: random chains incl. null / foreign documents) "
         "are decoded into ONE reused variable and into the reused elements of a slice; a step is accepted iff the full structural state of the "
         "target (all exported fields, also Value under Exists=false and non-selected constructors) equals what a fresh decode of that document "
-        "gives (JsonForms 4b: the value after decoding d is Denote(d), whatever the target held). Panic has no action. Accepted documents that encode no "
+        "gives (JsonForms 4b: the value after decoding d is Denote(d), whatever the target held). The encoder's string text of a value with garbage (zz, _, ' 00', "
+        "':Anycast', g, !) inserted after the opening quote, in the middle and before the closing quote must be refused or read as another value, "
+        "never as the original (JsonForms 5b). Panic has no action. Accepted documents that encode no "
         "value of the type (out-of-range numerals etc.) are counted as observations only. distinct = distinct (type, value) round trips + distinct (type, document) decodes.")
 
 INT = {"uint", "int", "varuint", "grams", "signedcoins", "magic"}
@@ -180,9 +182,18 @@ def seq_key(e):
     return "C20:%s:reused-target:%s" % (label, cls)
 
 
+def base_name(ty, name):
+    """Maybe[T] / Any only hand a non-null document on to T / Cell."""
+    while ty["t"] in ("maybe", "any"):
+        name, ty = inner_name(name), inner_ty(ty)
+    return fam(name)
+
+
 def key_of(e):
     if e["k"] == "Seq":
         return seq_key(e)
+    if e["k"] == "Ins":
+        return "C20:%s:garbage-in-string-ignored" % base_name(e["ty"], e["name"])
     if e["k"] == "RT" or (e["k"] == "Panic" and e.get("op") in ("marshal", "dump") and "val" in e) or (e["k"] == "Panic" and "val" in e):
         return rt_key(e) + (":panic" if e["k"] == "Panic" else "")
     return dec_key(e)
@@ -197,6 +208,9 @@ def describe(e):
         return "%s: document %s decoded into a reused %s that held the value of %s gives %s (%s), a fresh decode gives %s (%s)" % (
             e["name"], txt(e["doc"]), "slice element" if e["how"] == "slice" else "variable", txt(e.get("prevdoc")) if e.get("prevdoc") else "a fresh target",
             short(e["after"]), e["res"], short(e["fresh"]), e["freshres"])
+    if e["k"] == "Ins":
+        return "%s: the text %s of value %s with %r inserted (%s) = %s decoded %s as %s - the inserted bytes were ignored" % (
+            e["name"], txt(e["base"]), short(e["val"]), e["garbage"], e["where"], txt(e["doc"]), e["res"], short(e.get("back")))
     if e["k"] == "RT":
         return "%s value %s: text %s, err=%r, read back %s" % (e["name"], short(e["val"]), txt(e.get("text")), e["err"], short(e.get("back")))
     if e["k"] == "Panic":
@@ -215,10 +229,13 @@ def vector_of(e):
         if "prev" not in e or "val" not in e or (e["ty"]["t"] in ("inbody", "outbody") and any(x["sum"] not in ("", "Unknown") for x in (e["prev"], e["val"]))):
             return None
         return {"k": "Seq", "ty": e["ty"], "cls": "replay", "vals": [e["prev"], e["val"]]}
-    if e["k"] == "RT" or (e["k"] == "Panic" and "val" in e):
+    if e["k"] == "RT" or e["k"] == "Ins" or (e["k"] == "Panic" and "val" in e):
         if e["ty"]["t"] in ("inbody", "outbody") and e["val"]["sum"] not in ("", "Unknown"):
             return None
-        return {"k": "RT", "ty": e["ty"], "cls": e.get("cls", "replay"), "val": e["val"]}
+        v = {"k": "RT", "ty": e["ty"], "cls": e.get("cls", "replay"), "val": e["val"]}
+        if e["k"] == "Ins" or "garbage" in e:
+            v["mut"] = 1       # re-run the mutated / garbage documents of this value's text as well
+        return v
     v = {"k": "Dec", "ty": e["ty"], "cls": e.get("cls", e.get("mut", "replay")), "doc": e["doc"]}
     if e["k"] == "Direct" or e.get("op") == "unmarshal-direct":
         v["direct"] = 1
@@ -359,7 +376,7 @@ def run(ck):
     # ---- judge every trace with TLC
     results = vlib.parallel(lambda t: judge(ck, t[2], "%s%02d" % (t[0], t[1])), traces, n=8)
     seen_rt, seen_dec, seen_seq = set(), set(), set()
-    nrt = ndec = nrej = nseq = 0
+    nrt = ndec = nrej = nseq = nins = 0
     pending = []
     nexcl = 0
     for (kind, i, out), (evs, rej) in zip(traces, results):
@@ -373,6 +390,9 @@ def run(ck):
             elif e["k"] in ("Dec", "Direct"):
                 ndec += 1
                 seen_dec.add((e["name"], e["doc"], e["k"]))
+            elif e["k"] == "Ins":
+                nins += 1
+                seen_seq.add((e["name"], e["doc"], "ins"))
             elif e["k"] == "Seq":
                 nseq += 1
                 seen_seq.add((e["name"], e.get("prevdoc", ""), e["doc"], e["how"]))
@@ -394,6 +414,7 @@ def run(ck):
     ck.extra["round_trips_judged"] = nrt
     ck.extra["decodes_judged"] = ndec
     ck.extra["reused_target_steps_judged"] = nseq
+    ck.extra["garbage_insertions_judged"] = nins
     ck.extra["events_rejected"] = nrej
     tot = {}
     for nm, o in OBS.items():
@@ -459,6 +480,8 @@ def canaries(ck, results, traces):
     e["after"] = e["after"].replace("SumType:", "SumType:\"x\"+", 1); cases.append(("Seq: reused slice element differs from a fresh decode", e))
     e = pick(lambda e: e["k"] == "Seq" and e["res"] == "err" and e["freshres"] == "err")
     e["res"] = "ok"; cases.append(("Seq: a refused document is accepted by the reused target", e))
+    e = pick(lambda e: e["k"] == "Ins" and e["res"] == "err" and e["gowf"] == 1 and e["ty"]["t"] in BYTES | INT and e["where"] == "end")
+    e["res"] = "ok"; e["back"] = e["val"]; cases.append(("Ins: garbage before the closing quote ignored", e))
     e = pick(lambda e: e["k"] == "Dec" and e["res"] == "err")
     e["k"] = "Panic"; cases.append(("Panic event", e))
     e = pick(lambda e: e["k"] == "RT" and "canon" in e and e["err"] == "")
